@@ -424,7 +424,11 @@ func (x *Exec) loopHead(fr *Frame, st *State, b *ssa.BasicBlock, pred *ssa.Basic
 	isBack := pred != nil && body[pred]
 	var invs []Clause
 	if fr.con != nil {
-		invs = fr.con.LoopInv[ord]
+		for _, c := range fr.con.LoopInv[ord] {
+			if c.Group == "" || c.Group == x.view || fr.depth > 0 {
+				invs = append(invs, c)
+			}
+		}
 	}
 	// simultaneous phi assignment from the incoming edge
 	var phis []*ssa.Phi
